@@ -668,6 +668,10 @@ func (run *FuncRun) applyContract(st *State, fc *FuncContract, sig *types.Signat
 		} else {
 			// even "assigns nothing" callees may allocate: new epoch framed on the pre-state
 			as := env.assignSetOf(fc)
+			if fc.HasAssumedAssigns {
+				as = env.assignSetOfItems(fc.AssumedAssigns, fc.Where)
+				run.assumedFrames[fc.Key] = true
+			}
 			for _, f := range env.takeFacts() {
 				st.Assume(f)
 			}
